@@ -467,13 +467,14 @@ func (c *Chain) String() string {
 
 type column struct {
 	name string
-	kind string // str int float bool pstr nullstr bytes uint
+	kind string // str int float bool pstr nullstr bytes uint raw hash
 }
 
 var tableColumns = map[string][]column{
 	"items": {
 		{"name", "str"}, {"code", "int"}, {"price", "float"}, {"active", "bool"},
 		{"note", "pstr"}, {"nick", "nullstr"}, {"data", "bytes"}, {"owner_id", "uint"},
+		{"payload", "raw"}, {"digest", "hash"},
 	},
 	"owners": {{"title", "str"}, {"age", "int"}},
 	"tags":   {{"label", "str"}, {"weight", "int"}, {"item_id", "uint"}},
